@@ -247,13 +247,18 @@ def classify(bounds, o):
 def correspondence(ctx):
     rng = ctx.rng
     n = ctx.n(240, 6000)
-    cases, meta = [], []
+    cases, meta, crashed = [], [], []
     for i in range(n):
         acc, bounds, ops, tiled = gen_case(rng, edge=(i % 25 == 24))
         try:
             res = run_pass(acc, bounds, ops, tiled)
-        except Exception as e:  # the pass crashed: not comparable, note it
+        except Exception as e:
+            # the model is total: a crash of the pass on an input of the theorems' domain (positive static
+            # shapes) is a disagreement; on the finding class nonpositive_shape_dim it is only noted
             ctx.notes.append(f"set-memory-layout raised {e!r} on {acc} {bounds} {ops}")
+            if all(classify(bounds, o) is None for o in ops):
+                crashed.append({"name": "L1:set-memory-layout-crash", "error": repr(e)[:300],
+                                "case": {"acc": acc, "tiled": tiled, "bounds": bounds, "ops": ops}})
             continue
         spatial = ACCS[acc][1]
         cases.append(f"({boollit(tiled)}, {zlit(spatial)}, {zlist(bounds)}, {coqlist(coq_operand(o) for o in ops)}, {coq_result(res)})")
@@ -271,7 +276,7 @@ def correspondence(ctx):
                 ]
         shards.append("\n".join(text) + "\n")
     outs = vlib.coq_eval_many("c09_", shards, timeout=600)
-    dis = []
+    dis = list(crashed)
     for si, (ok, out) in enumerate(outs):
         lists = vlib.parse_all_eval_lists(out)
         if not ok or len(lists) != 1:
@@ -344,8 +349,10 @@ def search(ctx, deep=False):
         try:
             fs = check_case(acc, bounds, ops, tiled)
         except Exception as e:
+            # no layout is chosen at all: a failure of the property unless the input is in a finding class
             ctx.notes.append(f"L2: set-memory-layout raised {e!r}")
-            continue
+            ks = [k for k in (classify(bounds, o) for o in ops) if k]
+            fs = [{"what": "pass_crashed", "klass": ks[0] if ks else None, "detail": {"error": repr(e)[:300]}}]
         for f in fs:
             f["input"] = {"acc": acc, "bounds": bounds, "ops": ops, "tiled": tiled}
             fails.append(f)
@@ -377,7 +384,11 @@ def replay(ctx, obj):
     i = f["input"]
     print(schedule_text(i["acc"], i["bounds"], i["ops"]))
     print("tiled =", i["tiled"])
-    print("layouts:", run_pass(i["acc"], i["bounds"], i["ops"], i["tiled"]))
+    try:
+        print("layouts:", run_pass(i["acc"], i["bounds"], i["ops"], i["tiled"]))
+    except Exception as e:
+        print("FAIL set-memory-layout raised", repr(e))
+        return 1
     res = check_case(i["acc"], i["bounds"], i["ops"], i["tiled"])
     for r in res:
         print("FAIL", r)
